@@ -227,10 +227,14 @@ func (g *Gen) setup() {
 	}
 	// validators
 	nv := 1 + r.Intn(5)
+	bigPowers := r.Intn(4) == 0 // consensus power = stake / 10^6 of an 18-decimals coin: far above 2^32 on a real chain
 	for i := 0; i < nv; i++ {
 		p := int64(1 + r.Intn(100))
 		if r.Intn(4) == 0 {
 			p = 1
+		}
+		if bigPowers {
+			p = int64(1+r.Intn(9)) * 1000000000000000
 		}
 		g.vals = append(g.vals, valSpec{addr: hex20(byte(0xa0 + i)), power: p, bonded: true, orch: map[string]string{}, eth: map[string]string{}})
 	}
@@ -246,6 +250,12 @@ func (g *Gen) setup() {
 		if r.Intn(3) == 0 {
 			vals := []string{"999999999999999999", "1000000000000000000", "2000000000000000000", "3999999999999999999", "8000000000000000000", "16000000000000000000", "32000000000000000000", "40000000000000000000", "63999999999999999999", "64000000000000000000", "100000000000000000000", "512000000000000000000", "5000000000000000000000"}
 			g.do("holder " + strings.ToLower(rc[2:]) + " " + vals[r.Intn(len(vals))])
+		}
+	}
+	if r.Intn(3) == 0 {
+		// the burn address and its neighbours hold HUB too (what a lenient address parser makes of a non-hex string)
+		for _, a := range []string{"0000000000000000000000000000000000000000", "000000000000000000000000000000000000000c", "00000000000000000000000000000000000000c0"} {
+			g.do("holder " + a + " 64000000000000000000")
 		}
 	}
 	for _, a := range g.accounts {
@@ -403,6 +413,10 @@ func (g *Gen) opCancel() {
 				sender = g.env.toHexAcc(b.Transactions[0].Sender)
 			}
 		}
+	}
+	if g.rng.Intn(10) == 0 {
+		// a chain id that is not a chain of the bridge but resembles one (prefix, other case)
+		chain = []string{chain[:len(chain)-1], chain[:3], strings.ToUpper(chain), chain + "2"}[g.rng.Intn(4)]
 	}
 	g.do(fmt.Sprintf("cancel %s %s %d", sender, chain, id))
 }
@@ -1113,6 +1127,10 @@ func (g *Gen) runOracle(nops int) {
 		{"x" + hex.EncodeToString([]byte(`aa","value":"5"},{"address":"bb`)) + "=7"},
 		{"x" + hex.EncodeToString([]byte("aa=5 bb")) + "=7"},
 	}
+	subsetNames := r.Intn(2) == 0
+	if r.Intn(2) == 0 {
+		names = append(names, "extra") // a name the bridge does not need: whoever reports it decides it among themselves
+	}
 	for i := 0; i < nops; i++ {
 		epoch := g.env.ok.GetCurrentEpoch(g.env.ctx)
 		switch x := r.Intn(100); {
@@ -1135,8 +1153,8 @@ func (g *Gen) runOracle(nops int) {
 				if r.Intn(25) == 0 {
 					continue // missing required price
 				}
-				if ni >= len(names)-1 && len(names) > 3 && r.Intn(2) == 0 {
-					continue // the last name is reported by part of the validators only
+				if (ni >= len(names)-1 && r.Intn(2) == 0) || (subsetNames && r.Intn(5) == 0) {
+					continue // a name reported by part of the validators only (rejected if the bridge requires it)
 				}
 				val := new(big.Int).Mul(big.NewInt(int64(1+r.Intn(50))), new(big.Int).Exp(big.NewInt(10), big.NewInt(int64(15+r.Intn(4))), nil))
 				if r.Intn(40) == 0 {
@@ -1147,6 +1165,9 @@ func (g *Gen) runOracle(nops int) {
 					items = append(items, n+"="+new(big.Int).Add(val, big.NewInt(1000)).String()) // duplicate name
 				}
 			}
+			if len(items) == 0 {
+				items = []string{"-"}
+			}
 			g.do(fmt.Sprintf("oprice %s %d %s", v, ep, strings.Join(items, ",")))
 		case x < 65:
 			v := g.vals[r.Intn(len(g.vals))].addr
@@ -1156,9 +1177,10 @@ func (g *Gen) runOracle(nops int) {
 			}
 			if g.holderPair || r.Intn(12) == 0 {
 				g.holderPair = true // this history: a genuine list and look-alikes compete
-				hl = holderLists[6+r.Intn(2)]
+				base := len(holderLists) - 4
+				hl = holderLists[base+r.Intn(2)]
 				if r.Intn(6) == 0 {
-					hl = holderLists[8+r.Intn(2)]
+					hl = holderLists[base+2+r.Intn(2)]
 				}
 			}
 			g.do(fmt.Sprintf("oholders %s %d %s", v, epoch, strings.Join(hl, ",")))
